@@ -263,7 +263,21 @@ class C13(Prop):
                 raise Infra(f"retention {us} is not exact as float hours")
         self.hangs_seen = 0
         self.file = L.__file__
-        self.facts = e3_lysosome.extract(REPO)[1]
+        self.facts = e3_lysosome.extract(REPO, self._table_by_value())[1]
+
+    def _table_by_value(self):
+        """the methods of its own that a freshly constructed Lysosome stores in its digester table (evaluated, not
+        parsed); None when that cannot be found out (E3 then goes by the source alone)"""
+        try:
+            obj = self.L.Lysosome(silent=True)
+            names = []
+            for f in obj._digesters.values():
+                if getattr(f, "__self__", None) is obj and getattr(type(obj), getattr(f, "__name__", ""), None) is \
+                        getattr(f, "__func__", None):
+                    names.append(f.__name__)
+            return sorted(set(names))
+        except Exception:  # noqa
+            return None
 
     def _to_harness_clock(self, v):
         """a datetime produced by `Waste`'s default factory, moved from the clock it was read from (the real one, or
@@ -287,7 +301,7 @@ class C13(Prop):
         return fake_v + ms
 
     def extract(self, ctx):
-        text, facts = e3_lysosome.extract(REPO)
+        text, facts = e3_lysosome.extract(REPO, self._table_by_value())
         changed = write_if_changed(LEAN / "Operon" / "Gen" / "LysosomeLocks.lean", text)
         self.facts = facts
         ctext, cfacts = e3_lysosome_clients.extract(REPO, self.L, self.AD, self.clock)
@@ -549,11 +563,14 @@ class C13(Prop):
                 ctx["calls"].append((c["seq"], "raise"))
                 raise RuntimeError("scripted digester")
             ctx["calls"].append((c["seq"], "ok"))
+            # what comes back is not always a dict: the falsy values (None, 0, "", [], ()) are "nothing to recycle" like
+            # {}, and dict.update takes a list of pairs as well as a mapping (a pure function of the item's number)
             if k == 1:
-                return {}
+                return [{}, None, [], 0, "", ()][c["seq"] % 6]
             if k == 2:
-                return {f"k{c['id']}": c["seq"]}
-            return {f"k{c['id']}": c["seq"], "shared": c["seq"]}
+                return {f"k{c['id']}": c["seq"]} if c["seq"] % 2 == 0 else [(f"k{c['id']}", c["seq"])]
+            return ({f"k{c['id']}": c["seq"], "shared": c["seq"]} if c["seq"] % 3 else
+                    ((f"k{c['id']}", c["seq"]), ("shared", c["seq"])))
 
         digesters = {}
         for i in range(4):
@@ -632,7 +649,9 @@ class C13(Prop):
             if op == "ingestat":
                 import datetime as _dt
                 stamp, t = t[1], [t[0]] + t[2:]
-                created = (self.clock.now().replace(tzinfo=_dt.timezone.utc) if stamp == "aware"
+                # timezone-aware: the current instant in UTC, +05:30 or -08:00 (by the content code)
+                zone = _dt.timezone(_dt.timedelta(minutes=[0, 330, -480][int(t[3]) % 3]))
+                created = (self.clock.now().replace(tzinfo=_dt.timezone.utc).astimezone(zone) if stamp == "aware"
                            else self.clock.t0 + _dt.timedelta(microseconds=int(stamp)))
             else:
                 created = self.clock.now()
@@ -733,9 +752,9 @@ class C13(Prop):
         c = w.content
         if hasattr(w, "vf"):
             return w.vf[1]
-        if isinstance(c, dict) and "context" in c and "id" in c["context"]:
+        if isinstance(c, dict) and isinstance(c.get("context"), dict) and "id" in c["context"]:
             return c["context"]["id"]
-        return c.get("id") if isinstance(c, dict) else None
+        return c.get("id") if isinstance(c, dict) else None      # None: an item the harness never saw being ingested
 
     def _stamp_of(self, w):
         """created_at of a queued item as the caller / the library's own caller left it: µs on the harness clock, or
@@ -1050,6 +1069,10 @@ class C13(Prop):
                 out.append(Violation("queue_bounded", f"queue <= {mq}", f"queue size {snap['qsize']}", idx))
             if snap["qsize"] != len(snap["qseq"]):
                 out.append(Violation("queue_size_reported", str(len(snap["qseq"])), str(snap["qsize"]), idx))
+            if any(q_ is None for q_ in snap["qseq"]):
+                out.append(Violation("fate_partition", "everything in the queue was ingested (came in through ingest)",
+                                     f"queue holds an item no ingest call brought: {snap['qseq']}", idx))
+                break
             # 3. every ingested item is exactly one of queued / digested / error-reported / emergency-dropped / expired
             if snap["ing"] != n_ing:
                 out.append(Violation("ingested_count", str(n_ing), str(snap["ing"]), idx))
